@@ -69,7 +69,7 @@ func Explore(P *Program, h *HarnessSpec, o ExploreOpts) *ExploreResult {
 	stack := []WorkItem{{}}
 	active := 0
 	stop := false
-	sigSeen := map[string]bool{}
+	sigCount := map[string]int{}
 
 	worker := func() {
 		m := NewMachine(P, o.SolverName, o.TimeoutMs)
@@ -140,8 +140,8 @@ func Explore(P *Program, h *HarnessSpec, o ExploreOpts) *ExploreResult {
 			}
 			for _, v := range out.Violations {
 				v.Sig = fmt.Sprintf("%s|%s|%s|%s", v.Harness, v.Kind, v.Label, v.Pos)
-				if !sigSeen[v.Sig] {
-					sigSeen[v.Sig] = true
+				if sigCount[v.Sig] < 6 {
+					sigCount[v.Sig]++
 					res.Violations = append(res.Violations, v)
 				}
 			}
@@ -153,7 +153,7 @@ func Explore(P *Program, h *HarnessSpec, o ExploreOpts) *ExploreResult {
 				res.PathLimitHit = true
 				stop = true
 			}
-			if o.MaxViolations > 0 && len(res.Violations) >= o.MaxViolations {
+			if o.MaxViolations > 0 && len(sigCount) >= o.MaxViolations {
 				stop = true
 			}
 			if !o.Deadline.IsZero() && time.Now().After(o.Deadline) {
